@@ -23,7 +23,8 @@ package main
 //                          (pipeline.VerifNewEventPool(capacity, avg)): get(size), Root.DecodeBytes into the
 //                          recycled Root as pipeline.In does, back (= resetEvent: ReleaseBufMem above avg,
 //                          Buf dropped above 4096, ReleasePoolMem above 64 nodes) on Discard / Collapse
-//                          and when an event that reached the output is committed, `lag` input events later
+//                          and when an event that reached the output is committed, `lag` input events later;
+//                          avg = 0: the low-memory pool instead (one sync.Pool per size class, plain reset)
 //   (2 ms)                 directive: the collector's coarse clock (xtime) jumps ms milliseconds ahead
 //   (3)                    directive: TWO instances of every plugin of the chain, started from ONE config
 //                          object (as the processors of one pipeline are), run the event list concurrently
@@ -33,9 +34,11 @@ import (
 	"bytes"
 	"encoding/json"
 	"fmt"
+	"runtime/debug"
 	"sync"
 	"sync/atomic"
 	"time"
+	"unsafe"
 
 	"github.com/ozontech/file.d/pipeline"
 	"github.com/ozontech/file.d/xtime"
@@ -186,6 +189,11 @@ func (r *chainRun) back(e *pipeline.Event) {
 	}
 	delete(r.pm.kids, e)
 	r.stats["pool_back"]++
+	if r.pm.avg() == 0 {
+		r.stats["pool_back_low_memory_pool"]++
+		r.pm.pool.Back(e)
+		return
+	}
 	if e.Size > r.pm.avg() {
 		r.stats["pool_back_ReleaseBufMem"]++
 	}
@@ -210,6 +218,11 @@ func (r *chainRun) checkEvent(e *pipeline.Event, k int, when string) bool {
 		// fixes/C13-stdout-split-parent.patch, the stdout output skip it): its tree went to the children
 		r.stats["parent_of_spawned_children_not_encoded"]++
 		return true
+	}
+	if !encodeTerminates(e.Root.Node, 5_000_000) {
+		// (a cycle in the links the encoder follows: the real Encode would append for ever and could not be stopped)
+		r.violate(obsBadJSON, r.types[k]+": encoding the "+when+" event does not terminate: the node links form a cycle")
+		return false
 	}
 	var enc []byte
 	var tree hx.Sx
@@ -238,6 +251,96 @@ func (r *chainRun) checkEvent(e *pipeline.Event, k int, when string) bool {
 		return false
 	}
 	return true
+}
+
+// nodeMirror has the layout of insaneJSON.Node (insane-json v0.1.9 insane.go:121): the encoder walks the
+// unexported next / parent links, and a tree left inconsistent by an action (recorded finding
+// C13-move-block-stale-index) can close them into a cycle, on which Encode appends for ever.
+type nodeMirror struct {
+	bits   uint64
+	data   string
+	next   *nodeMirror
+	parent *nodeMirror
+	nodes  []*nodeMirror
+	fields *map[string]int
+}
+
+const (
+	mirObject, mirEnd, mirArray, mirArrayEnd = 1 << 0, 1 << 1, 1 << 2, 1 << 3
+	mirTypeFilter                            = 1<<11 - 1
+)
+
+// encodeTerminates replays the control flow of (*Node).Encode (insane.go:609-706) without producing
+// output and gives up after `budget` nodes; a nil link ends the walk (the real Encode then panics, which
+// hx.Catch reports).
+func encodeTerminates(n *insaneJSON.Node, budget int) (ok bool) {
+	defer func() {
+		if recover() != nil {
+			ok = true
+		}
+	}()
+	cur := (*nodeMirror)(unsafe.Pointer(n))
+	top := cur
+	s := 0
+	if len(cur.nodes) == 0 && cur.bits&(mirObject|mirArray) != 0 {
+		return true
+	}
+	for ; budget > 0; budget-- {
+		popSkip := false
+		switch cur.bits & mirTypeFilter {
+		case mirObject:
+			if len(cur.nodes) == 0 {
+				cur = cur.next
+				popSkip = true
+				break
+			}
+			top = cur
+			cur = cur.nodes[0].next
+			s++
+			continue
+		case mirArray:
+			if len(cur.nodes) == 0 {
+				cur = cur.next
+				popSkip = true
+				break
+			}
+			top = cur
+			cur = cur.nodes[0]
+			s++
+			continue
+		}
+		if !popSkip {
+			cur = cur.next
+		}
+		for { // popSkip: close every container that ends here
+			var end uint64
+			switch {
+			case top.bits&mirArray != 0:
+				end = mirArrayEnd
+			case top.bits&mirObject != 0:
+				end = mirEnd
+			default:
+				return true
+			}
+			if cur.bits&end == 0 {
+				break
+			}
+			cur = top
+			top = top.parent
+			s--
+			if s == 0 {
+				return true
+			}
+			cur = cur.next
+			if budget--; budget <= 0 {
+				return false
+			}
+		}
+		if top.bits&mirArray == 0 { // object: cur is the next field, its value follows
+			cur = cur.next
+		}
+	}
+	return false
 }
 
 // normTree: the tree up to the encoding. insane-json's encoder writes an invalid UTF-8 byte as
@@ -318,7 +421,17 @@ func (r *chainRun) doActions(e *pipeline.Event, from int) bool {
 	for k := from; k < len(r.acts); k++ {
 		var res pipeline.ActionResult
 		setFatal("")
-		msg := hx.Catch(func() { res = r.acts[k].Do(e) })
+		msg := hx.Catch(func() {
+			if stackProbe != nil { // attribution run of main.go emit: where exactly did Do panic
+				defer func() {
+					if x := recover(); x != nil {
+						stackProbe(fmt.Sprint(x) + "\n" + string(debug.Stack()))
+						panic(x)
+					}
+				}()
+			}
+			res = r.acts[k].Do(e)
+		})
 		if fm := getFatal(); msg != "" && fm != "" {
 			r.violate(obsFatal, r.types[k]+": Fatal: "+fm)
 			return false
@@ -437,6 +550,9 @@ func evText(e hx.Sx) []byte {
 // gets a node pool of 512 before the event is decoded, so that no event of the generators comes near the
 // end of its pool
 var bigNodePool bool
+
+// stackProbe: attribution aid of main.go emit: receives the panic value and the full stack of a panic inside Do
+var stackProbe func(string)
 
 var bigWarmDoc = wideObject(200, func(i int) string { return "0" })
 
@@ -617,7 +733,11 @@ func execChain(cs hx.Sx, stats map[string]int) hx.Sx {
 		defer r.release()
 		if poolArgs != nil {
 			capacity, avg := int(hx.Int(poolArgs[0])), int(hx.Int(poolArgs[1]))
-			r.pm = &poolRun{pool: pipeline.VerifNewEventPool(capacity, avg, time.Hour), avgSize: avg, lag: int(hx.Int(poolArgs[2])),
+			pool := pipeline.VerifNewEventPool(capacity, avg, time.Hour)
+			if avg == 0 { // the low-memory pool (settings pool: low_memory): one sync.Pool per size class bits.Len(size), plain reset on back
+				pool = pipeline.VerifNewLowMemoryEventPool(capacity, time.Hour)
+			}
+			r.pm = &poolRun{pool: pool, avgSize: avg, lag: int(hx.Int(poolArgs[2])),
 				seen: map[*pipeline.Event]bool{}, kids: map[*pipeline.Event][]*insaneJSON.Root{}}
 		}
 		for k, sp := range specs {
